@@ -58,6 +58,7 @@ type Checked struct {
 	groupSeen    map[groupReq]int
 	typeKeys     map[int]map[Key]bool
 	touchAfter   int
+	faultBefore  bool // an injected fault fired in an earlier operation of this history
 }
 
 func (c *Checked) probe(name string) { c.Probes[name]++ }
@@ -192,8 +193,24 @@ func (c *Checked) Step(i int) {
 		}
 	}
 
+	for _, e := range evs {
+		if e.Kind == EvExit && e.Out != OutOK {
+			c.faultBefore = true
+		}
+	}
+
 	// ---- advance the model by what dig accepted
 	c.advance(i, op, res)
+}
+
+// afterFault adds C07 to the properties a violation counts against when an
+// injected failure happened earlier in the history: whatever goes wrong now on
+// a fault-free path is then (also) something a failed execution left behind.
+func (c *Checked) afterFault(props ...string) []string {
+	if c.faultBefore {
+		return append(props, "C07")
+	}
+	return props
 }
 
 func (c *Checked) advance(i int, op Op, res *OpResult) {
@@ -1136,7 +1153,7 @@ func (c *Checked) checkInvokeModel(i int, op Op, res *OpResult, evs []Event) {
 		return
 	}
 	if res.Verdict == VCycle && !anyCycle {
-		c.viol(i, "spurious-cycle", fmt.Sprintf("Invoke f%d from s%d reported a cycle but the graph is acyclic under every reading: %s", inv.ID, op.Scope, res.Facts.Text), "C05", "C16", "C13", "C04")
+		c.viol(i, "spurious-cycle", fmt.Sprintf("Invoke f%d from s%d reported a cycle but the graph is acyclic under every reading: %s", inv.ID, op.Scope, res.Facts.Text), c.afterFault("C05", "C16", "C13", "C04")...)
 	}
 	if anyCycle || av.Loops {
 		c.probe("invoke_model_skipped_cycle")
@@ -1161,7 +1178,7 @@ func (c *Checked) checkInvokeModel(i int, op Op, res *OpResult, evs []Event) {
 		if !anyFail {
 			c.probe("invoke_available")
 			if res.Verdict != VOK {
-				c.viol(i, "available-but-failed", fmt.Sprintf("Invoke f%d from s%d: every required dependency is available, no cycle, no user failure, yet verdict %s: %s", inv.ID, op.Scope, res.Verdict, res.Facts.Text), "C04", "C08", "C16")
+				c.viol(i, "available-but-failed", fmt.Sprintf("Invoke f%d from s%d: every required dependency is available, no cycle, no user failure, yet verdict %s: %s", inv.ID, op.Scope, res.Verdict, res.Facts.Text), c.afterFault("C04", "C08", "C16")...)
 			}
 		}
 	}
